@@ -402,7 +402,15 @@ impl Family for C01 {
             1 => rng.usize_range(1, 12),
             _ => rng.usize_range(4, 48),
         };
-        let ops = gen_wops(rng, word, nops, true);
+        // scale: one run in 400 has several hundred operations, one in 400 a zero run
+        // longer than 2^16 bits
+        let scale = rng.below(400);
+        let nops = if scale == 0 { rng.usize_range(300, 700) } else { nops };
+        let mut ops = gen_wops(rng, word, nops, true);
+        if scale == 1 {
+            let at = rng.usize_range(0, ops.len());
+            ops.insert(at, WOp1::Unary { x: rng.range(65_500, 70_000) });
+        }
         // fixed slice: half of the time exactly as many words as the history needs (the last
         // word of the slice is then written by the close), otherwise with slack
         let exact_words = {
